@@ -75,6 +75,7 @@ def gen_config(r, index=None, subset_cycle=False, force_mode=None):
             'folders': folder_layout(r, outputs),
             'junk': r.random() < 0.15,
             'lmdb': mode == 'ocr' and 'lines' in outputs and r.random() < 0.25,
+            'late_pages': [pages[-1]['id']] if (len(pages) >= 2 and r.random() < 0.1 and not pages[-1].get('no_xml')) else [],
             'clock': {'inc': [r.choice([0.001, 0.05, 2.0]) for _ in range(3)],
                       'jumps': {str(r.randint(0, 30)): r.choice([-3600.0, 86400.0, -1.5])} if r.random() < 0.3 else {}}}
     if plan['lmdb']:
@@ -195,13 +196,21 @@ def check_history(world, tree, runs, gt_snap, exp, label):
     nontrivial = False
     n = len(runs)
     crashed_inside = False
+    late = set(plan.get('late_pages') or [])
+    if late and n > 2:
+        world.hide_inputs(late)
+        res.probe('input_pages_arriving_before_the_resume')
     for ri, spec in enumerate(runs):
         role = 'nothing' if ri == n - 1 else ('resume' if ri == n - 2 else 'crash')
+        if late and role == 'resume':
+            world.restore_inputs()
+            late = set()
         before = snapshot(out)
         bm = tuple(page_bitmap(exp[p], before) for p in ids)
         bitmaps.append(bm)
         res.states.append(kernel.sha([world.cfg_sig, bm]))
         complete_before = {p for p in ids if is_complete(exp[p], before)}
+        present = [p for p in ids if p not in late]
         proc = world.simulate_process(out, spec)
         after = snapshot(out)
         processed = list(proc.processed)
@@ -250,7 +259,7 @@ def check_history(world, tree, runs, gt_snap, exp, label):
         if killed:
             continue
         # the process was not killed before finishing its writes
-        work_left = [p for p in ids if p not in complete_before]
+        work_left = [p for p in present if p not in complete_before]
         if not proc.killed_at_exit and proc.exit != 'ok':
             V = kernel.Violation('C17', 'unclean-exit', 'unclean-exit|%s|%s' % (proc.exit, 'work-left' if work_left else 'nothing-left'),
                                  '%s run %d (%s): process ended with %s (%s)' % (label, ri, role, proc.exit, getattr(proc, 'exc_text', '')))
@@ -264,7 +273,7 @@ def check_history(world, tree, runs, gt_snap, exp, label):
         failed = set(getattr(proc, 'failed_pages', []) or [])
         if failed:
             res.probe('page_failed_transiently')
-        bad = [p for p in ids if not is_complete(exp[p], after) and p not in failed]
+        bad = [p for p in present if not is_complete(exp[p], after) and p not in failed]
         if bad:
             p = bad[0]
             V = kernel.Violation('C17', 'incomplete', 'incomplete-after-clean-run|missing=%s' % '+'.join(missing_kinds(exp[p], after)),
@@ -274,7 +283,7 @@ def check_history(world, tree, runs, gt_snap, exp, label):
             V = kernel.Violation('C17', 'repeated-work', 'nothing-left-run-did-work', '%s run %d: nothing was left but %s processed / %d writes' % (label, ri, processed, proc.writes_done))
             break
         # (2) equality with the uninterrupted run (not yet for a run in which a page failed transiently)
-        if gt_snap is not None and not failed:
+        if gt_snap is not None and not failed and not late:
             for f, dg in gt_snap.items():
                 if f == 'transcriptions.txt':
                     continue
@@ -290,6 +299,8 @@ def check_history(world, tree, runs, gt_snap, exp, label):
             if extra:
                 V = kernel.Violation('C17', 'differs', 'unexpected-file|%s' % extra[0].split('/')[0], '%s run %d: %s is not produced by an uninterrupted run' % (label, ri, extra[0]))
                 break
+    if plan.get('late_pages'):
+        world.restore_inputs()          # (also when a violation cut the history short)
     if nontrivial:
         nt = res.nontrivial if isinstance(res.nontrivial, list) else []
         nt.append(kernel.sha([world.cfg_sig, bitmaps]))
